@@ -90,11 +90,15 @@ def build(p):
                 continue
             ops.append(("add", h[1], h[2], h[3]))
             live.add(h[1])
-            (reloaded.add if h[2] in reloaded else reloaded.discard)(h[1])
+            # a sum with a reloaded operand holds copies of reloaded (unfillable) sparse bins: a later fill routed to one of
+            # them raises half-way through a fan-out collection, which C12 explicitly leaves outside the guarantees
+            (reloaded.add if (h[2] in reloaded or h[3] in reloaded) else reloaded.discard)(h[1])
         elif k == "iadd":
             if h[1] not in live or h[2] not in live:
                 continue
             ops.append(("iadd", h[1], h[2]))
+            if h[2] in reloaded:
+                reloaded.add(h[1])   # same: the left operand adopted copies of reloaded bins
         elif k == "mul":
             if h[2] not in live:
                 continue
